@@ -205,6 +205,19 @@ class Folder:
                 d = self.fold(e.args[2], upto, env)
                 return Flags() if d == 0 else d
             return Flags({flag})
+        if isinstance(e, ast.Call) and isinstance(e.func, ast.Name) and e.func.id == 'map' and len(e.args) == 2 and not e.keywords:
+            # map(<pure stdlib function>, <constant iterable>)
+            f = ast.unparse(e.args[0])
+            origin = f
+            if isinstance(e.args[0], ast.Attribute) and isinstance(e.args[0].value, ast.Name):
+                origin = '%s.%s' % (self.module.imports.get(e.args[0].value.id, e.args[0].value.id), e.args[0].attr)
+            elif isinstance(e.args[0], ast.Name):
+                origin = self.module.imports.get(f, f)
+            PURE = {'re.escape': __import__('re').escape, 'str': str, 'int': int, 'chr': chr, 'ord': ord, 'len': len,
+                    'str.lower': str.lower, 'str.upper': str.upper}
+            if origin not in PURE:
+                raise Unknown('map over %s' % f)
+            return tuple(PURE[origin](x) for x in self.fold(e.args[1], upto, env))
         if isinstance(e, ast.Call):
             fn = ast.unparse(e.func)
             args = [self.fold(a, upto, env) for a in e.args]
@@ -228,6 +241,10 @@ class Folder:
                 return ord(args[0])
             if fn in ('str', 'int', 'bytes', 'hex'):
                 return {'str': str, 'int': int, 'bytes': bytes, 'hex': hex}[fn](*args)
+            if isinstance(e.func, ast.Attribute) and isinstance(e.func.value, ast.Name) and e.func.attr == 'escape' and \
+                    self.module.imports.get(e.func.value.id, e.func.value.id) == 're' and len(args) == 1:
+                import re as _re
+                return _re.escape(args[0])
             if fn.endswith('.join') and isinstance(e.func, ast.Attribute):
                 sep = self.fold(e.func.value, upto, env)
                 return sep.join(args[0])
